@@ -371,8 +371,8 @@ var exception_throw(var obj, const char* fmt, var args) {
 
   struct Exception* e = current(Exception);
   
-  e->obj = obj;
   print_to_with(e->msg, 0, fmt, args);
+  e->obj = obj;
   
   if (Exception_Len(e) >= 1) {
     longjmp(*Exception_Buffer(e), 1);
